@@ -126,10 +126,13 @@ theorem eventually_converted (s : St) (h : Accounted s) (hq : ∀ c, queuedOf s 
   · rw [hq c] at h1; simp at h1
 
 /-- detaching stops further runs for streams only this tag matched -/
+-- CHANGED (dropped): `detachConv` takes the tagging choice of the dropped-output step (`st.tag` at both call
+-- sites); the statement holds for every choice (the former statement is the instance `choice := none`)
 theorem detach_stops (s : St) (n c : String) (t : Tag) (hw : C06.TagsWF s)
     (ht : sget s.tags n = some t) (id : Nat) (hm : id ∈ t.mat)
-    (hothers : ∀ n2 t2, sget s.tags n2 = some t2 → n2 ≠ n → c ∈ t2.convs → id ∉ t2.mat) :
-    id ∉ queuedOf (detachConv s n c) c :=
-  Pk.Proofs.MgrConv.detach_stops' s n c t hw ht id hm hothers
+    (hothers : ∀ n2 t2, sget s.tags n2 = some t2 → n2 ≠ n → c ∈ t2.convs → id ∉ t2.mat)
+    (choice : Option String := none) :
+    id ∉ queuedOf (detachConv s n c choice) c :=
+  Pk.Proofs.MgrConv.detach_stops' s n c t hw ht id hm hothers choice
 
 end Pk.Props.C16
